@@ -1,7 +1,7 @@
 #!/bin/sh
 # usage: tools/try_patch.sh <patch.diff> <ID> [<ID>...]  -- apply a seeded change to a scratch worktree of /repo HEAD and run checks on it
 P="$1"; shift
-W=/tmp/wt-verify
+W=${WT:-/tmp/wt-verify}
 if [ ! -d "$W" ]; then git -C /repo worktree add -q "$W" HEAD || exit 3; fi
 git -C "$W" checkout -q --detach "$(git -C /repo rev-parse HEAD)" 2>/dev/null
 git -C "$W" reset -q --hard HEAD && git -C "$W" clean -fdq -e target
